@@ -289,30 +289,67 @@ def shard(rec, tier, index, n_shards):
                 rec.violation("invalid-ordering-not-rejected-with-InvalidModeOrderingError", {"text": text, "got": repr(r)[:200]})
             rec.count("invalid_orderings_rejected")
 
-    # (4) rejections
-    for k in range(300 if tier == "quick" else 3000):
+    # (4) rejections: the offending name is placed at EVERY kind of position - any occurrence of any
+    # tensor (first or later occurrence of a repeated tensor), any index position, colliding with the
+    # target or with any right-hand-side tensor
+    def occurrences(e, path=()):
+        if e[0] == "t":
+            yield path, e
+        elif e[0] != "n":
+            yield from occurrences(e[1], path + (1,))
+            yield from occurrences(e[2], path + (2,))
+
+    def replace_at(e, path, new):
+        if not path:
+            return new
+        l = list(e)
+        l[path[0]] = replace_at(e[path[0]], path[1:], new)
+        return tuple(l)
+
+    for k in range(600 if tier == "quick" else 8000):
         tgt, e = random_sentence(rng, rng.randint(1, 3))
-        refs = gen.tensors_of(e)
-        if not refs:
+        occ = list(occurrences(e))
+        if not occ:
             continue
-        name = rng.choice(list(refs))
+        # make sure some tensor occurs at least twice: duplicate one reference with permuted indexes
+        pth, ref = rng.choice(occ)
+        dup = ("t", ref[1], tuple(rng.sample(ref[2], len(ref[2]))))
+        e = (rng.choice("+-*"), e, dup) if rng.random() < 0.5 else (rng.choice("+-*"), dup, e)
+        occ = list(occurrences(e))
+        names = [tgt[1]] + list(gen.tensors_of(e))
         kind = k % 3
-        if kind == 0:  # reuse the target
-            tgt2 = ("t", name, tgt[2])
-            text, want = gen.show_assignment(tgt2, e), MutatingAssignmentError
-        elif kind == 1:  # one tensor with two orders
-            extra = ("t", name, tuple(list(refs[name][0]) + ["zz"]))
-            text, want = gen.show_assignment(tgt, ("+", e, extra)), InconsistentDimensionsError
-        else:  # a name used as tensor and index
-            extra = ("t", "q", (name,))
-            text, want = gen.show_assignment(tgt, ("*", e, extra)), NameConflictError
+        pth, ref = rng.choice(occ)
+        if kind == 0:  # the target reused at any occurrence
+            e2 = replace_at(e, pth, ("t", tgt[1], ref[2]))
+            text, want = gen.show_assignment(tgt, e2), MutatingAssignmentError
+        elif kind == 1:  # one tensor with two orders: change the order of one occurrence of a repeated tensor
+            multi = [(p_, r_) for p_, r_ in occ if len(gen.tensors_of(e)[r_[1]]) >= 2]
+            pth, ref = rng.choice(multi)
+            new_idx = ref[2] + ("zz",) if rng.random() < 0.5 or not ref[2] else ref[2][:-1]
+            e2 = replace_at(e, pth, ("t", ref[1], new_idx))
+            text, want = gen.show_assignment(tgt, e2), InconsistentDimensionsError
+        else:  # a tensor name used as an index at any position of any occurrence
+            cands = [(p_, r_) for p_, r_ in occ if len(r_[2]) >= 1]
+            if not cands:
+                continue
+            pth, ref = rng.choice(cands)
+            pos = rng.randrange(len(ref[2]))
+            idx = list(ref[2])
+            idx[pos] = rng.choice(names)
+            e2 = replace_at(e, pth, ("t", ref[1], tuple(idx)))
+            text, want = gen.show_assignment(tgt, e2), NameConflictError
         r = total(rec, parse_assignment, text, "assignment")
         if r is None:
             continue
         if not (isinstance(r, Failure) and isinstance(r.failure(), want)):
-            rec.violation(f"not-rejected-with-{want.__name__}", {"text": text, "got": repr(r)[:200]})
+            # a different documented rejection may legitimately take precedence; an accepted sentence never
+            if isinstance(r, Failure) and isinstance(r.failure(), (MutatingAssignmentError, InconsistentDimensionsError, NameConflictError)):
+                rec.count("rejections_with_another_documented_error")
+            else:
+                rec.violation(f"not-rejected-with-{want.__name__}", {"text": text, "got": repr(r)[:200]})
         else:
             rec.count("rejections_typed")
+            rec.countd("rejection_kinds", want.__name__)
 
     # literal classes with known findings: non-finite floats / interpreter limits (one probe each per shard 0)
     if index == 0:
